@@ -331,10 +331,9 @@ def coq_goal(call, model):
         return "path_iter %s = Ok (%s : list pval)" % (coq_bdd(call[1]), coq_list(model[1:], coq_pv))
     if op in ("sat_valuations", "into_sat_valuations") and isinstance(model, list):
         return "sat_valuations_iter %s = Ok (%s : list (list bool))" % (coq_bdd(call[1]), coq_list(model[1:], coq_val))
-    if op == "to_dnf" and isinstance(model, list):
-        return "to_dnf %s = (%s : list pval)" % (coq_bdd(call[1]), coq_list(model[1:], coq_pv))
-    if op == "to_cnf" and isinstance(model, list):
-        return "to_cnf %s = (%s : list pval)" % (coq_bdd(call[1]), coq_list(model[1:], coq_pv))
+    # the driver reports the faithful machines of Model/Dnf.v (clauses printed without trailing unset cells)
+    if op in ("to_dnf", "to_cnf") and isinstance(model, list):
+        return "match %s_faithful %s with Ok l => map pv_trim l | _ => [[None]] end = (%s : list pval)" % (op, coq_bdd(call[1]), coq_list(model[1:], coq_pv))
     if op == "clause_valuations":
         if model == "PANIC":
             return "clause_iter %s %s = Panic" % (coq_pv(call[1]), call[2])
@@ -343,9 +342,9 @@ def coq_goal(call, model):
     if op in ("mk_dnf", "mk_cnf"):
         cs = coq_list(call[2][1:], coq_pv)
         if model == "PANIC":
-            return "%s %s (%s : list pval) = Panic" % (op, call[1], cs)
+            return "%s_faithful %s (%s : list pval) = Panic" % (op, call[1], cs)
         if is_bdd(model):
-            return "%s %s (%s : list pval) = Ok %s" % (op, call[1], cs, coq_bdd(model))
+            return "%s_faithful %s (%s : list pval) = Ok %s" % (op, call[1], cs, coq_bdd(model))
     return None
 
 
@@ -371,7 +370,7 @@ def kernel_crosscheck(steps, limit=60, max_chars=4000):
     if not goals:
         return 0, 0
     lines = ["From Coq Require Import List NArith Bool. Import ListNotations.",
-             "From BddVerif Require Import Model.Bdd Model.Apply Model.Ops Model.Paths.", "Open Scope N_scope."]
+             "From BddVerif Require Import Model.Bdd Model.Apply Model.Ops Model.Paths Model.Valuation Model.Dnf.", "Open Scope N_scope."]
     for i, g in enumerate(goals):
         lines.append("Goal %s. Proof. vm_compute. reflexivity. Qed." % g)
     d = tempfile.mkdtemp(prefix="xchk", dir=os.path.join(VERIF, ".work"))
